@@ -335,10 +335,23 @@ func runToBytes(id int, m *desc.Msg, extra ...string) {
 	var b []byte
 	var fm *fix.Message
 	var err error
+	reser := false
 	p := guarded(func() {
 		fm = m.Build()
 		b, err = fm.ToBytes()
+		// multi-step use: a message already serialized once is changed through a setter and
+		// serialized again; the description (hence the model's input) follows the change
+		if err == nil && id%3 == 1 {
+			if mutateAfterFirstSerialization(m, fm, id) {
+				reser = true
+				b, err = fm.ToBytes()
+			}
+		}
 	})
+	if reser {
+		rec.Case = "TOBYTES " + m.Enc()
+		extra = append(extra, "reserialized-after-change")
+	}
 	switch {
 	case p != "":
 		rec.Impl = "PANIC"
@@ -362,6 +375,32 @@ func runToBytes(id int, m *desc.Msg, extra ...string) {
 		rec.Tags = append(rec.Tags, "cs<"+map[bool]string{true: "10", false: map[bool]string{true: "100", false: "256"}[b[len(b)-4] == '0']}[b[len(b)-4] == '0' && b[len(b)-3] == '0'])
 	}
 	emit(rec)
+}
+
+// mutateAfterFirstSerialization changes the first top-level String field of the body (or header)
+// through its setter, in the real object and in the description alike.
+func mutateAfterFirstSerialization(m *desc.Msg, fm *fix.Message, id int) bool {
+	try := func(ds []*desc.Item, real fix.Items) bool {
+		for i, it := range ds {
+			if it.Kind == 'K' && it.V.Kind == 'S' {
+				kv, ok := real[i].(*fix.KeyValue)
+				if !ok {
+					return false
+				}
+				nv := bytes.Repeat([]byte("w"), 1+id%120)
+				if kv.Value.Set(string(nv)) != nil {
+					return false
+				}
+				it.V = &desc.Val{Kind: 'S', Valid: true, S: nv, Route: "set"}
+				return true
+			}
+		}
+		return false
+	}
+	if try(m.Body, fm.Body()) {
+		return true
+	}
+	return try(m.Header, fm.Header().Items())
 }
 
 // typed getter comparison for the round trip oracle
